@@ -28,7 +28,7 @@ UNITS = ["ev.c", "net.c", "os.c", "filewatch.c"]
 RESULT_EXCEPTIONS = {
     ("janet_ev_post_event", "write"): "self-pipe write from any thread or signal handler: retried in its own loop on EINTR/EAGAIN, checked below",
     ("janet_thread_body", "write"): "self-pipe write of the completion message: own retry loop",
-    ("janet_proc_gc", "waitpid"): "best-effort reaping of a collected process (WNOHANG); no fiber waits on it",
+    ("janet_proc_gc", "waitpid"): "reaping of a collected, just-killed process in the finaliser; no fiber waits on it (that the wait blocks is checked by C20-REAP)",
     ("net_callback_accept", "accept4"): "non-blocking accept on a listening socket does not sleep, so it is not interrupted mid-call; "
                                         "on any failure the connection stays queued and the callback runs again on readiness",
     ("net_callback_accept", "accept"): "as accept4",
